@@ -708,6 +708,9 @@ class LLUDPMessageLogEntry(AbstractMessageLogEntry):
             raise ValueError("Didn't have a fresh or frozen message somehow")
 
     def freeze(self):
+        if self._message is None:
+            # Already frozen, the pickle we have is the logged message
+            return
         message = self.message
         message.invalidate_caches()
         # These are expensive to keep around. pickle them and un-pickle on
